@@ -254,6 +254,15 @@ func (t TV) Go() any {
 		return TextStringer{S: t.S}
 	case "error":
 		return &TextError{S: t.S}
+	case "nil*time": // typed nil pointers whose type has String()/Error(): fmt prints them as <nil>
+		return (*time.Time)(nil)
+	case "nil*Stringer":
+		return (*TextStringer)(nil)
+	case "nil*error":
+		return (*TextError)(nil)
+	case "*time":
+		tm := time.Unix(t.I, 0).UTC()
+		return &tm
 	case "FileMode":
 		return fs.FileMode(t.U)
 	case "Duration":
@@ -319,7 +328,7 @@ func (t TV) Truthy() (truthy bool, decided bool) {
 		return t.F != 0, true
 	case "string":
 		return t.S != "", true
-	case "nil*Item", "nilslice", "nilmap":
+	case "nil*Item", "nilslice", "nilmap", "nil*time", "nil*Stringer", "nil*error":
 		return false, false
 	// named types: a non-zero value is truthy under every reading; whether the
 	// zero value counts as "zero of a numeric type" / "the empty string" the
